@@ -116,7 +116,8 @@ def run(rep, pdb, tier):
         lucall = [n for n in walk(det["body"]) if n.get("k") == "MethodCall" and callee_path(n) == "%s::lu_decomp_in_place" % M]
         tmp = dctx.term(lucall[0]["recv"]) if lucall else None
         diag = v[0] == "idx" and v[1] == tmp and r is not None and v[2] == ("tup", r[0], r[0])
-        full = r is not None and r[1] == num(0) and r[2] == ROWS and not r[3]
+        tie_d = dict(local_ties(pdb, dctx))         # temp = self.clone(): temp.rows is self.rows (the factorisation writes no dimension)
+        full = r is not None and r[1] == num(0) and rewrite_eqs(r[2], tie_d) == ROWS and not r[3]
         after = bool(lucall) and _pos(lucall[0]) < _pos(e.node)
         okp = one and diag and full and after
         dets = "starts at one=%s multiplies temp[(i,i)]=%s i in 0..rows=%s after the factorisation=%s" % (one, diag, full, after)
